@@ -245,6 +245,11 @@ def _run_hyp(prop, part, tier, seed, shard, nshards, res):
     from hypothesis import HealthCheck, Phase, given, settings
 
     n = part.examples[tier]
+    try:  # Hypothesis' shrinker has a hard 5-minute cap; bound it lower so a failing check reports promptly
+        from hypothesis.internal.conjecture import engine as _engine
+        _engine.MAX_SHRINKING_SECONDS = 20 if tier == "quick" else 90
+    except Exception:  # noqa: BLE001
+        pass
     state = {"last": None}
     strat = part.strategy(tier)
 
